@@ -80,8 +80,10 @@ theorem planManifest_kinds (c : Cfg) (e : Entry) (a : Attempt) :
   split at hx
   · simp at hx; subst hx; rfl
   · split at hx
-    · simp at hx; rcases hx with hx | hx <;> subst hx <;> rfl
-    · simp at hx; rcases hx with hx | hx | hx | hx | hx <;> subst hx <;> rfl
+    · simp at hx; subst hx; rfl
+    · split at hx
+      · simp at hx; rcases hx with hx | hx <;> subst hx <;> rfl
+      · simp at hx; rcases hx with hx | hx | hx | hx | hx <;> subst hx <;> rfl
 
 theorem plan_kinds (c : Cfg) (e : Entry) (a : Attempt) :
     ∀ x ∈ (plan c e a).calls, x.kind.isPlan = true := by
@@ -90,7 +92,10 @@ theorem plan_kinds (c : Cfg) (e : Entry) (a : Attempt) :
   split at hx
   · exact (snapshotCalls_kinds c x hx).1
   · split at hx
-    · simp [planDry] at hx; rcases hx with hx | hx | hx <;> subst hx <;> rfl
+    · unfold planDry at hx
+      split at hx
+      · simp at hx
+      · simp at hx; rcases hx with hx | hx | hx <;> subst hx <;> rfl
     · exact planManifest_kinds c e a x hx
 
 
@@ -463,24 +468,29 @@ theorem plan_writeManifest (c : Cfg) (e : Entry) (a : Attempt) (cl : Call)
   split at h
   · exact absurd hk (snapshotCalls_kinds c cl h).2
   · split at h
-    · simp [planDry] at h
-      rcases h with h | h | h <;> subst h <;> simp [cReadFile, cWriteFile, cChmod] at hk
+    · unfold planDry at h
+      split at h
+      · simp at h
+      · simp at h
+        rcases h with h | h | h <;> subst h <;> simp [cReadFile, cWriteFile, cChmod] at hk
     · rename_i h1 h2
       simp only [h1, h2, if_false]
       unfold planManifest at h ⊢
       split at h
       · simp at h; subst h; simp [cReadManifest] at hk
       · split at h
-        · simp at h; rcases h with h | h <;> subst h <;> simp [cReadManifest, cReadFile] at hk
-        · rename_i h3 h4
-          simp only [h3, h4, if_false]
-          simp at h
-          rcases h with h | h | h | h | h
-          · subst h; simp [cReadManifest] at hk
-          · subst h; simp [cReadFile] at hk
-          · subst h; simp [cWriteFile] at hk
-          · subst h; simp [cChmod] at hk
-          · subst h; exact ⟨rfl, rfl, h3⟩
+        · simp at h; subst h; simp [cReadManifest] at hk
+        · split at h
+          · simp at h; rcases h with h | h <;> subst h <;> simp [cReadManifest, cReadFile] at hk
+          · rename_i h3 h3' h4
+            simp only [h3, h3', h4, if_false]
+            simp at h
+            rcases h with h | h | h | h | h
+            · subst h; simp [cReadManifest] at hk
+            · subst h; simp [cReadFile] at hk
+            · subst h; simp [cWriteFile] at hk
+            · subst h; simp [cChmod] at hk
+            · subst h; exact ⟨rfl, rfl, h3⟩
 
 theorem runCalls_five (ws : Nat) (f : Option Nat) (c1 c2 c3 c4 c5 : Call) (ev : Ev)
     (hev : ev ∈ (runCalls ws f 1 [c1, c2, c3, c4, c5]).1) (hk : ev.kind = c5.kind)
@@ -729,11 +739,199 @@ theorem retryLoop_released (c : Cfg) (e : Entry) (budget : Int) (hd : c.dryRun =
         · left; simp [List.count_append, List.count_cons, a1, i1, i2, qd]
         · right; simp [List.count_append, List.count_cons, a1, a2, i1, i2, qd, qc]
 
+/-! ### paths (arbitrary names): what the calls of an attempt are made on -/
+
+/-- The (kind, path argument) pairs an attempt's ChangeOps calls can carry: computed from the request
+    configuration alone — not from the attempt's number, not from what its workspace holds. -/
+def planArgs (c : Cfg) : List (Kind × String) :=
+  if c.snapshot then (snapshotCalls c).map (fun cl => (cl.kind, cl.arg))
+  else [(.readManifest, relOut c manifestFile), (.readFile, relOut c (basename c.cand)),
+        (.writeFiles, relOut c (basename c.cand)), (.chmod, relOut c (basename c.cand)),
+        (.writeManifest, relOut c manifestFile)]
+
+theorem plan_args (c : Cfg) (e : Entry) (a : Attempt) :
+    ∀ cl ∈ (plan c e a).calls, (cl.kind, cl.arg) ∈ planArgs c := by
+  intro cl h
+  unfold plan at h
+  unfold planArgs
+  split at h
+  · rename_i hs
+    simp only [hs, if_true]
+    exact List.mem_map.mpr ⟨cl, h, rfl⟩
+  · rename_i hs
+    simp only [hs, if_false]
+    split at h
+    · unfold planDry at h
+      split at h
+      · simp at h
+      · simp at h
+        rcases h with h | h | h <;> subst h <;> simp [cReadFile, cWriteFile, cChmod]
+    · unfold planManifest at h
+      split at h
+      · simp at h; subst h; simp [cReadManifest]
+      · split at h
+        · simp at h; subst h; simp [cReadManifest]
+        · split at h
+          · simp at h; rcases h with h | h <;> subst h <;> simp [cReadManifest, cReadFile]
+          · simp at h
+            rcases h with h | h | h | h | h <;> subst h <;>
+              simp [cReadManifest, cReadFile, cWriteFile, cChmod, cWriteManifest]
+
+/-- Every ChangeOps call of the change function in an attempt is one of the plan. -/
+theorem attempt_plan_events (c : Cfg) (e : Entry) (i : Nat) (a : Attempt) (hd : c.dryRun = false) :
+    ∀ ev ∈ (attempt c e i a).1, ev.kind.isPlan = true →
+      ∃ cl ∈ (plan c e a).calls, ev.kind = cl.kind ∧ ev.arg = cl.arg := by
+  obtain ⟨R, _, hR, _, h⟩ := attempt_nf c e i a hd
+  intro ev hev hk
+  have inR : ev ∈ R := by
+    rcases h with h | h | ⟨h, _⟩ | ⟨h, _⟩ <;> rw [h] at hev <;>
+      simp only [List.mem_cons, List.mem_append, List.not_mem_nil, or_false] at hev
+    · subst hev; simp [evGetOps, Kind.isPlan] at hk
+    · rcases hev with rfl | hev | rfl
+      · simp [evGetOps, Kind.isPlan] at hk
+      · exact hev
+      · simp [evDestroy, Kind.isPlan] at hk
+    · rcases hev with rfl | hev | rfl | rfl
+      · simp [evGetOps, Kind.isPlan] at hk
+      · exact hev
+      · simp [evCommit, Kind.isPlan] at hk
+      · simp [evDestroy, Kind.isPlan] at hk
+    · rcases hev with rfl | hev | rfl | rfl
+      · simp [evGetOps, Kind.isPlan] at hk
+      · exact hev
+      · simp [evCommit, Kind.isPlan] at hk
+      · simp [evResult, Kind.isPlan] at hk
+  obtain ⟨_, _, cl, hcl, k1, k2, _⟩ := hR ev inR
+  exact ⟨cl, hcl, k1, k2⟩
+
+theorem retryLoop_plan_events (c : Cfg) (e : Entry) (budget : Int) (hd : c.dryRun = false) :
+    ∀ (script : List Attempt) (tries : Nat), ∀ ev ∈ (retryLoop c e budget tries script).1,
+      ev.kind.isPlan = true → (ev.kind, ev.arg) ∈ planArgs c := by
+  intro script
+  induction script with
+  | nil => intro tries ev hev; simp [retryLoop] at hev
+  | cons a rest ih =>
+    intro tries ev hev hk
+    rcases mem_retryLoop_cons c e budget tries a rest ev hev with h | ⟨b, h⟩ | ⟨_, h, _⟩
+    · obtain ⟨cl, hcl, k1, k2⟩ := attempt_plan_events c e tries a hd ev h hk
+      rw [k1, k2]; exact plan_args c e a cl hcl
+    · subst h; simp [evRetriable, Kind.isPlan] at hk
+    · exact ih (tries + 1) ev h hk
+
+/-- A refused candidate name (manifest mode): the plan is at most the manifest read and ends in an error. -/
+theorem plan_refused (c : Cfg) (e : Entry) (a : Attempt) (hs : c.snapshot = false) (hn : nameOk c.cand = false) :
+    (plan c e a).internalErr = true ∧ ∀ cl ∈ (plan c e a).calls, cl.kind = .readManifest := by
+  unfold plan
+  simp only [hs, Bool.false_eq_true, if_false]
+  split
+  · simp [planDry, hn]
+  · unfold planManifest
+    split
+    · simp [cReadManifest]
+    · simp [hn, cReadManifest]
+
+theorem attempt_refused (c : Cfg) (e : Entry) (i : Nat) (a : Attempt) (hd : c.dryRun = false)
+    (hs : c.snapshot = false) (hn : nameOk c.cand = false) :
+    (attempt c e i a).2 = false ∧
+    ∀ ev ∈ (attempt c e i a).1, ev.kind.isPlan = true → ev.kind = .readManifest := by
+  obtain ⟨hie, hcalls⟩ := plan_refused c e a hs hn
+  constructor
+  · unfold attempt
+    simp only [hd, Bool.false_eq_true, if_false]
+    by_cases h0 : a.failAt = some 0
+    · simp [h0]
+    · simp [h0, hie]
+  · intro ev hev hk
+    obtain ⟨cl, hcl, k1, _⟩ := attempt_plan_events c e i a hd ev hev hk
+    rw [k1]; exact hcalls cl hcl
+
+theorem retryLoop_refused (c : Cfg) (e : Entry) (budget : Int) (hd : c.dryRun = false)
+    (hs : c.snapshot = false) (hn : nameOk c.cand = false) :
+    ∀ (script : List Attempt) (tries : Nat),
+      (retryLoop c e budget tries script).2 ≠ .ok ∧
+      ∀ ev ∈ (retryLoop c e budget tries script).1, ev.kind.isPlan = true → ev.kind = .readManifest := by
+  intro script
+  induction script with
+  | nil => intro tries; simp [retryLoop]
+  | cons a rest ih =>
+    intro tries
+    obtain ⟨hf, hev⟩ := attempt_refused c e tries a hd hs hn
+    constructor
+    · rcases retryLoop_cases c e budget tries a rest with ⟨h, _⟩ | ⟨_, _, h'⟩ | ⟨_, _, _, h'⟩ | ⟨_, _, _, h'⟩
+      · rw [hf] at h; cases h
+      · rw [h']; simp
+      · rw [h']; simp
+      · rw [h']; exact (ih (tries + 1)).1
+    · intro ev hm hk
+      rcases mem_retryLoop_cons c e budget tries a rest ev hm with h | ⟨b, h⟩ | ⟨_, h, _⟩
+      · exact hev ev h hk
+      · subst h; simp [evRetriable, Kind.isPlan] at hk
+      · exact (ih (tries + 1)).2 ev h hk
+
+/-- The path handed to Result: the plan's certPath of the committing attempt. -/
+theorem attempt_result_arg (c : Cfg) (e : Entry) (i : Nat) (a : Attempt) (hd : c.dryRun = false) :
+    ∀ ev ∈ (attempt c e i a).1, ev.kind = .result →
+      ev.arg = (if c.snapshot then "" else basename c.cand) ∧ (c.snapshot = false → nameOk c.cand = true) := by
+  obtain ⟨R, _, hR, _, h⟩ := attempt_nf c e i a hd
+  intro ev hev hk
+  have nR : ∀ x ∈ R, x.kind ≠ .result := fun x hx => (isPlan_ne (hR x hx).2.1).2.2.2.2
+  rcases h with h | h | ⟨h, _⟩ | ⟨h, _⟩ <;> rw [h] at hev <;>
+    simp only [List.mem_cons, List.mem_append, List.not_mem_nil, or_false] at hev
+  · subst hev; simp [evGetOps] at hk
+  · rcases hev with rfl | hev | rfl
+    · simp [evGetOps] at hk
+    · exact absurd hk (nR ev hev)
+    · simp [evDestroy] at hk
+  · rcases hev with rfl | hev | rfl | rfl
+    · simp [evGetOps] at hk
+    · exact absurd hk (nR ev hev)
+    · simp [evCommit] at hk
+    · simp [evDestroy] at hk
+  · rcases hev with rfl | hev | rfl | rfl
+    · simp [evGetOps] at hk
+    · exact absurd hk (nR ev hev)
+    · simp [evCommit] at hk
+    · -- the attempt succeeded: the plan has no internal error
+      have hsucc : (attempt c e i a).2 = true := by rw [h]
+      by_cases hs : c.snapshot = true
+      · simp [evResult, plan, hs]
+      · have hs' : c.snapshot = false := by simpa using hs
+        by_cases hn : nameOk c.cand = true
+        · refine ⟨?_, fun _ => hn⟩
+          simp only [evResult, hs', Bool.false_eq_true, if_false]
+          unfold plan planManifest
+          simp only [hs', hd, Bool.false_eq_true, if_false, hn, Bool.not_true]
+          split
+          · -- garbage manifest: the attempt cannot have succeeded
+            exfalso
+            rename_i hg
+            have : (plan c e a).internalErr = true := by simp [plan, planManifest, hs', hd, hg]
+            unfold attempt at hsucc
+            simp only [hd, Bool.false_eq_true, if_false, this] at hsucc
+            split at hsucc <;> simp at hsucc
+          · split
+            · exfalso
+              rename_i hg hx
+              have : (plan c e a).internalErr = true := by simp [plan, planManifest, hs', hd, hg, hn, hx]
+              unfold attempt at hsucc
+              simp only [hd, Bool.false_eq_true, if_false, this] at hsucc
+              split at hsucc <;> simp at hsucc
+            · rfl
+        · exfalso
+          have hn' : nameOk c.cand = false := by simpa using hn
+          rw [(attempt_refused c e i a hd hs' hn').1] at hsucc
+          cases hsucc
+
 /-! ### concrete inputs used by the non-vacuity examples of the property file -/
 
 def exCfg : Cfg := ⟨false, false, false, false, false, "rc0", "R", "out", "snap", "fw.fd"⟩
 def exEntry : Entry := ⟨"rc0.binarypb", "aa", "9"⟩
 def exOther : Entry := ⟨"rc7.binarypb", "bb", "1"⟩
 def exOther2 : Entry := ⟨"rc8.binarypb", "cc", "2"⟩
+/-- uncanonical names everywhere: candidate "x/../sub//rc0", out dir "./out//", snapshot dir "snap/", image "d/./fw.fd" -/
+def exCfgNames : Cfg := ⟨false, false, false, false, false, "x/../sub//rc0", "R", "./out//", "snap/", "d/./fw.fd"⟩
+def exEntryNames : Entry := ⟨"sub/rc0.binarypb", "aa", "9"⟩
+/-- a climbing candidate name -/
+def exCfgClimb : Cfg := ⟨false, false, true, false, false, "../out/rc0", "R", "out", "snap", "fw.fd"⟩
 
 end GceTcb.Commit
